@@ -87,13 +87,15 @@ def _try(f):
 
 
 def _feature_obs(f):
+    plen = int(f.map.parent_length)
     return [
         str(f.biotype),
         str(f.name),
         str(f.seqid),
         canon(_try(lambda: f.map.get_coordinates())),
-        int(f.map.parent_length),
-        bool(getattr(f, "reversed", False)),
+        plen,
+        # the strand of a feature on an EMPTY parent denotes nothing (an empty view forgets its strand)
+        bool(getattr(f, "reversed", False)) if plen else None,
         _try(lambda: str(f.get_slice())),
     ]
 
